@@ -187,7 +187,8 @@ def generate(rng, tier):
         h = r2.choice(hosts[1:])
         tk = round(r2.choice([3.0, 8.0, 14.0]) + r2.random(), 6)
         if r2.random() < 0.5:
-            ops.append({"t": tk, "op": "close", "h": h})
+            # (some applications withdraw everything through async_unregister_all_services and keep the instance)
+            ops.append({"t": tk, "op": "close" if fixed or r2.random() < 0.6 else "unregister_all", "h": h})
         else:
             ops.append({"t": tk, "op": "crash", "h": h})
             if r2.random() < 0.5:
@@ -326,6 +327,9 @@ def _oracle(w, drv, sc, t_end, stats, out):
         elif e["op"] == "close":
             events.append((e["t_call"], "close", e["host"], None))
             stats["closes"] += 1
+        elif e["op"] == "unregister_all":
+            events.append((e["t_call"], "unreg_all", e["host"], None))
+            stats["unregisters"] += 1
     for rec in w.events:
         if rec[1] == "host-crash":
             events.append((float(rec[0]), "crash", rec[2], None))
@@ -360,8 +364,9 @@ def _oracle(w, drv, sc, t_end, stats, out):
             if reg.get(n) == host:
                 del reg[n]
                 history[n][-1][1] = t
-        elif kind == "close":
-            closed.add(host)
+        elif kind in ("close", "unreg_all"):
+            if kind == "close":
+                closed.add(host)
             for n in [n for n, h in reg.items() if h == host]:
                 del reg[n]
                 history[n][-1][1] = t
